@@ -295,44 +295,84 @@ vs_trim_lws(const uint8_t *b, size_t from, size_t to) {
 	return (r);
 }
 
-/* Finds the first field named `name` among the field lines that start after the first CRLF
- * at or after `offset` (L1). A field matches iff it starts a line, its name (the bytes up
- * to the first ':' of that line) equals `name` ignoring case. On success: *val = trimmed
- * value (L5), *next = offset of the CRLF that ends the field (or n). */
+/* Walks the field lines that start after the first CRLF at or after `offset` (L1) in ONE
+ * pass over the bytes (equivalent to: split into logical lines with vs_field_line_end, take
+ * the bytes before the first ':' of each line as its name).  A field matches iff it starts a
+ * line and its name equals `name` ignoring case; an empty line ends the header section.
+ * Returns the number of matching fields;
+ * for the FIRST match: *val = trimmed value (L5), *next = offset of the CRLF that ends the
+ * field (or n).  With stop_at_first != 0 the walk ignores everything after the first match. */
+static inline size_t
+vs_hdr_walk(const uint8_t *b, size_t n, const uint8_t *name, size_t name_len, size_t offset,
+    int stop_at_first, vs_span *val, size_t *next) {
+	size_t cnt = 0, s = 0, c = VS_NPOS, vfirst = VS_NPOS, vlast = VS_NPOS;
+	int in_fields = 0, done = 0;
+
+	for (size_t i = 0; i <= n; i ++) {
+		int at_end = (i == n);
+		int crlf = (!at_end && i >= offset && i + 1 < n && b[i] == '\r' && b[i + 1] == '\n');
+		int fold = (crlf && i + 2 < n && (b[i + 2] == ' ' || b[i + 2] == '\t'));
+
+		if (done)
+			continue;
+		if (!in_fields) {
+			if (crlf) {		/* end of the start-line */
+				in_fields = 1;
+				s = i + 2;
+				c = VS_NPOS; vfirst = VS_NPOS; vlast = VS_NPOS;
+			}
+			continue;
+		}
+		if (crlf && i == s) {		/* empty line: end of the header section (RFC 7230 3) */
+			done = 1;
+			continue;
+		}
+		if ((crlf && !fold && i >= s) || (at_end && s < n)) {	/* logical line [s, i) ends */
+			if (c != VS_NPOS && vs_name_eq_nocase(b, s, c - s, name, name_len)) {
+				if (cnt == 0) {
+					if (vfirst == VS_NPOS) {
+						val->pos = i;
+						val->len = 0;
+					} else {
+						val->pos = vfirst;
+						val->len = vlast + 1 - vfirst;
+					}
+					*next = i;
+				}
+				cnt ++;
+				if (stop_at_first)
+					done = 1;
+			}
+			s = i + 2;
+			c = VS_NPOS; vfirst = VS_NPOS; vlast = VS_NPOS;
+			continue;
+		}
+		if (at_end || i < s)
+			continue;
+		if (c == VS_NPOS) {
+			if (b[i] == ':')
+				c = i;
+		} else if (!vs_is_lws(b[i])) {
+			if (vfirst == VS_NPOS)
+				vfirst = i;
+			vlast = i;
+		}
+	}
+	return (cnt);
+}
+
 static inline int
 vs_hdr_find(const uint8_t *b, size_t n, const uint8_t *name, size_t name_len, size_t offset,
     vs_span *val, size_t *next) {
-	size_t p, s, le, c;
-
-	if (offset >= n)
-		return (0);
-	p = vs_find_crlf(b, offset, n);
-	while (p != VS_NPOS && p < n) {
-		s = p + 2;			/* line start */
-		if (s >= n)
-			return (0);
-		le = vs_field_line_end(b, n, s);
-		c = vs_find_byte(b, s, le, ':');
-		if (c != VS_NPOS && vs_name_eq_nocase(b, s, c - s, name, name_len)) {
-			*val = vs_trim_lws(b, c + 1, le);
-			*next = le;
-			return (1);
-		}
-		p = le;				/* le is a CRLF position or n */
-	}
-	return (0);
+	return (vs_hdr_walk(b, n, name, name_len, offset, 1, val, next) != 0);
 }
 
 static inline size_t
 vs_hdr_count(const uint8_t *b, size_t n, const uint8_t *name, size_t name_len) {
-	size_t cnt = 0, off = 0, next = 0;
-	vs_span v;
+	vs_span v = { 0, 0 };
+	size_t next = 0;
 
-	while (vs_hdr_find(b, n, name, name_len, off, &v, &next)) {
-		cnt ++;
-		off = next;
-	}
-	return (cnt);
+	return (vs_hdr_walk(b, n, name, name_len, 0, 0, &v, &next));
 }
 
 /* ------------------------------------------------- request smuggling rule table ---- */
